@@ -42,6 +42,12 @@ def discFail (w : World) : StepCtx → World
   | .flush (.discPre _) => w.handleDisconnect
   | _ => w
 
+/-- `disconnect_with`: once the DISCONNECT (`which` ≠ 0, 1) is wholly on the transport the handle is
+finished — `handle_disconnect()` runs before the flush is awaited, so that nothing follows a DISCONNECT
+also when that flush is cancelled. CONNECT and QoS 0 PUBLISH just go on to their flush. -/
+def discDone (w : World) (which : Nat) : World :=
+  if which = 0 then w else if which = 1 then w else w.handleDisconnect
+
 def opKindName : OpKind → String
   | .pub1 => "pub1"
   | .pub2 => "pub2"
@@ -314,7 +320,7 @@ def afterFlush : Nat → World → AfterFlush → World
 def doLocalWrite : Nat → World → Nat → Bytes → World
   | 0, w, _, _ => w.emit "fuel"
   | fuel + 1, w, which, bytes =>
-    if bytes.isEmpty then doLocalFlush fuel w which else
+    if bytes.isEmpty then doLocalFlush fuel (w.discDone which) which else
     match w.ioWrite bytes with
     | (w, .pending) =>
       w.suspend (if which = 0 then .connWrite bytes else if which = 1 then .q0Write bytes else .discWrite bytes)
